@@ -30,6 +30,17 @@ def run(tier: str) -> int:
     recs += pmap(drv.exec_random, rnd)
     rejects, consumed, wall = validate_traces("StackTrace", "StackTrace", recs, tag=f"c12-{tier}")
     chk.add_traces(recs, rejects)
+    # EXTENSION beyond C12: typed access chart[T] / chart[T] = lists (Map.__getitem__/__setitem__).  AccessMC is model-checked
+    # (assign-then-read returns what was assigned; the sanity configuration with the code's no-op assignment must be violated),
+    # its scenarios and the five games' charts are replayed and judged by AccessTrace; disagreements are observations
+    from harness.drivers import accessx
+    am = run_tlc("AccessMC", "AccessMC", workers=1, timeout=900)
+    chk.add_model("AccessMC", am, "EXTENSION: typed get/set of a chart's lists (SetThenGet, OthersKept)")
+    if run_tlc("AccessMC", "AccessMC_sanity", workers=1, timeout=600).ok:
+        chk.model_violations.append("vacuity: AccessMC_sanity (the code's assignment) was expected to violate SetThenGet")
+    xrecs = pmap(accessx.exec_access, [p for p in am.prints if isinstance(p, dict) and p.get("kind") == "access"]) + accessx.exec_access_games(None)
+    xrej, _, _ = validate_traces("AccessTrace", "AccessTrace", xrecs, tag=f"c12x-{tier}")
+    chk.add_traces(xrecs, xrej)
     chk.nontrivial = len({(x["game"], x["op"], str(x["pre"]), str(x.get("mask")), str(x.get("cols", x.get("p"))), str(x["f"]))
                           for x in recs if not x["stale"] and any(l["rows"] for l in x["pre"])})
     chk.rule = ("TLC explores every history stack/set/loc/edit of Depth ops over 12 chart shapes (masks: singletons, complements, "
